@@ -25,11 +25,29 @@ func (m Message) TagType() byte {
 }
 
 func (m Message) MarshalNBT(w io.Writer) error {
-	if m.Translate != "" {
-		return nbt.NewEncoder(w).Encode(translateMsg(m), "")
-	} else {
-		return nbt.NewEncoder(w).Encode(rawMsgStruct(m), "")
+	if len(m.With) > 0 {
+		with := make(TranslateArgs, len(m.With))
+		for i, a := range m.With {
+			if s, ok := a.(string); ok {
+				with[i] = Text(s)
+			} else {
+				with[i] = a
+			}
+		}
+		m.With = with
 	}
+	var b []byte
+	var err error
+	if m.Translate != "" {
+		b, err = nbt.Marshal(translateMsg(m))
+	} else {
+		b, err = nbt.Marshal(rawMsgStruct(m))
+	}
+	if err != nil {
+		return err
+	}
+	_, err = w.Write(b[3:]) // payload only: the caller has written the tag header
+	return err
 }
 
 func (m *Message) UnmarshalNBT(tagType byte, r nbt.DecoderReader) error {
